@@ -213,6 +213,7 @@ func main() {
 	}
 	var findings []finding
 	ran := 0
+	bigDone := false
 	check := func(name string, before int64, got []string, want []string) {
 		ran++
 		if n := raceBytes(); n > before {
@@ -259,6 +260,37 @@ func main() {
 					before := raceBytes()
 					got := conc(jobs)
 					check(fmt.Sprintf("%s ops=%v value=%s js=%q", sc.Obj, ops, sh.name, srcs), before, got, want)
+				}
+			}
+			if sc.O == "scan" && !bigDone {
+				bigDone = true
+				// a large string widens the window in which two first uses overlap; every ordered pair of first operations
+				big := strings.Repeat("0123456789abcdef", 2048) + "é𝒳"
+				wantOf := map[string]string{}
+				bigOps := []string{"s.length", "(s + 'x').length", "s.concat('y').length", "s.charCodeAt(5)", "s === t", "s.indexOf('é') > 0", "s.slice(3, 9)",
+					"s < t", "new Map([[s, 1]]).has(t)", "('x' + s).length"}
+				for rep := 0; rep < *reps; rep++ {
+					for i := range bigOps {
+						for j := range bigOps {
+							srcs := []string{bigOps[i], bigOps[j], bigOps[(i+j+rep)%len(bigOps)], bigOps[(i*3+j+1)%len(bigOps)]}
+							want := make([]string, len(srcs))
+							for k := range srcs {
+								if _, ok := wantOf[srcs[k]]; !ok {
+									wantOf[srcs[k]] = runJS(goja.New(), goja.New().ToValue(big+""), srcs[k])
+								}
+								want[k] = wantOf[srcs[k]]
+							}
+							v := goja.New().ToValue(big + "")
+							jobs := make([]func(*goja.Runtime) string, len(srcs))
+							for k := range srcs {
+								src := srcs[k]
+								jobs[k] = func(vm *goja.Runtime) string { return runJS(vm, v, src) }
+							}
+							before := raceBytes()
+							got := conc(jobs)
+							check(fmt.Sprintf("istr ops=first-use pairs value=big-unicode js=%q", srcs), before, got, want)
+						}
+					}
 				}
 			}
 		case "prim":
